@@ -1,5 +1,6 @@
 import Proofs.C02
 import Proofs.C02Closed
+import Proofs.Facts.C02
 #print axioms C02.store_step
 #print axioms C02.store_refines_map
 #print axioms C02.store_refines_map_from_empty
@@ -25,3 +26,13 @@ import Proofs.C02Closed
 #print axioms C02.closed_files_refine_spec
 #print axioms C02.closed_values_reported
 #print axioms C02.closed_values_correctly_rounded_partial
+#print axioms C02.Facts.max_line_agrees
+#print axioms C02.Facts.too_long_message_agrees
+#print axioms C02.Facts.syntax_error_format_pinned
+#print axioms C02.Facts.unknown_file_name_agrees
+#print axioms C02.Facts.space_mask_agrees
+#print axioms C02.Facts.prefixes_agree
+#print axioms C02.Facts.bench_line_messages_agree
+#print axioms C02.Facts.unit_line_messages_agree
+#print axioms C02.Facts.key_value_shape_agrees
+#print axioms C02.Facts.files_labels_agree
